@@ -35,10 +35,10 @@ JudgeToks(c, r, order, k, p) ==
   IN IF last THEN
         (IF r.err = -2 THEN "ok"        \* the parser rejected the last token: the stream is judged up to there
          ELSE IF r.err = -1 THEN (IF t0[1] = -1 THEN "ok"
-                             ELSE IF t1[1] = -1 THEN "ok@spelling"
+                             ELSE IF t1[1] = -1 THEN "ok@" \o DevKindFrom(TT(c), r.M, c.SM, order, among, p, r.n)
                              ELSE "stream-ends-early")
          ELSE IF t0[1] = 0 /\ t0[2] = r.err THEN "ok"
-         ELSE IF t1[1] = 0 /\ t1[2] = r.err THEN "ok@spelling"
+         ELSE IF t1[1] = 0 /\ t1[2] = r.err THEN "ok@" \o DevKindFrom(TT(c), r.M, c.SM, order, among, p, r.n)
          \* contextual lexer: terminal defined but not acceptable here -> UnexpectedToken carrying the root lexer's token
          ELSE IF r.ecls = "UnexpectedToken" /\ t0[1] = 0 /\ t0[2] <= r.err THEN "ok"
          ELSE IF t0[1] = 0 THEN "error-offset-differs" ELSE "spurious-lexer-error")
@@ -46,24 +46,37 @@ JudgeToks(c, r, order, k, p) ==
           IF real = t0 THEN JudgeToks(c, r, order, k + 1, real[3])
           ELSE IF real = t1 THEN
                (LET rest == JudgeToks(c, r, order, k + 1, real[3])
-                IN IF rest \in {"ok", "ok@spelling"} THEN "ok@spelling" ELSE rest)
+                    kind == DevKindFrom(TT(c), r.M, c.SM, order, among, p, r.n)
+                IN IF rest \in {"ok", "ok@spelling", "ok@embedded"}
+                   THEN (IF kind = "embedded" \/ rest = "ok@embedded" THEN "ok@embedded" ELSE "ok@spelling")
+                   ELSE rest)
           ELSE IF t0[1] <= 0 THEN "token-where-none-expected"
           ELSE IF real[2] # t0[2] THEN "token-start-differs"
           ELSE IF real[3] # t0[3] THEN "token-extent-differs"
           ELSE "token-type-differs"
 
 \* contextual refines basic (statement of C07, second sentence)
-JudgeRefine(r) ==
-  IF r.basicacc /\ ~r.overlap /\ ~r.ctxacc THEN "contextual-rejects-what-basic-accepts"
-  ELSE IF r.basicacc /\ ~r.overlap /\ ~r.same THEN "contextual-tree-differs-from-basic"
+\* r.among: the terminal sets of the parser states the contextual run went through.  A keyword that is embedded in a
+\* regexp for the full terminal set but not inside such a state (the regexp is not acceptable there) competes there under its
+\* own width - 'start: "if" "=" NAME | "if=" NAME "+"' on 'if=a': basic types 'if' through NAME, the start state's lexer
+\* holds IF and "if=" only and takes the longer "if=" (hunted defect 34)
+KeywordLostInContext(c, r) ==
+  \E k \in DOMAIN r.among :
+     LET ctx == SetOf(r.among[k]) \cup Ign(TT(c)) IN
+     \E s \in ctx : s \in Embedded(TT(c), c.SM, DOMAIN c.T) /\ s \notin Embedded(TT(c), c.SM, ctx)
+JudgeRefine(c, r) ==
+  LET sfx == IF KeywordLostInContext(c, r) THEN "@keyword-lost-in-context" ELSE "" IN
+  IF r.basicacc /\ ~r.overlap /\ ~r.ctxacc THEN "contextual-rejects-what-basic-accepts" \o sfx
+  ELSE IF r.basicacc /\ ~r.overlap /\ ~r.same THEN "contextual-tree-differs-from-basic" \o sfx
   ELSE "ok"
 
 JudgeC07(c, r) ==
-  IF r.mode = "refine" THEN JudgeRefine(r) ELSE
+  IF r.mode = "refine" THEN JudgeRefine(c, r) ELSE
   LET order == Order(TT(c), c.rank)
       v == JudgeToks(c, r, order, 1, r.a)
   IN IF v = "ok" THEN (IF r.mode = "basic" /\ order # c.order THEN "drift:terminal-order" ELSE "ok")
      ELSE IF v = "ok@spelling" THEN "keyword-decided-on-spelling@known"
+     ELSE IF v = "ok@embedded" THEN "string-embedded-in-a-regexp-is-removed-from-the-order@known-embedded"
      ELSE v
 
 \* ---- C06 ----
